@@ -71,11 +71,11 @@ def run_file(job):
         write_text(gaf, join_lines(lines, fid))
         cases = []
 
-        def emit(path, argv, inp_lines, out_path):
+        def emit(path, argv, inp_lines, out_path, mode=None):
             r = run_cli(argv, timeout=120)
             out = lines_of(read_out(out_path)) if os.path.exists(out_path) else []
             st = r["status"] if r["status"] == "ok" else r["status"] + ":" + r["exc"][:50]
-            cases.append({"id": f"{fid}.{path}", "path": path, "status": st, "recs": pair_up(inp_lines, out)})
+            cases.append({"id": f"{fid}.{path}", "path": mode or path, "status": st, "recs": pair_up(inp_lines, out)})
             return out
 
         run_cli(["index", gaf, gfa])
@@ -84,6 +84,34 @@ def run_file(job):
         if st and len(st) == len(lines):
             emit("unstable", ["view", os.path.join(d, "s.gaf"), "-g", gfa, "-f", "unstable", "-o", os.path.join(d, "o3")], st, os.path.join(d, "o3"))
         emit("node_stable", ["view", gaf, "-n", "s2", "-g", gfa, "-f", "stable", "-o", os.path.join(d, "o4")], lines, os.path.join(d, "o4"))
+        if len(lines) > 700:
+            # the big file once more as multi-block BGZF whose records START exactly on 64 KiB / 128 KiB of the uncompressed text
+            # (readers that work in chunks have their seams there), converted as a whole and selected by node
+            from readers import align_starts
+
+            al = align_starts(lines, [1 << 16, 1 << 17, 3 << 16], pad=40)
+            zg = os.path.join(d, "aligned.gaf.gz")
+            write_text(zg, "\n".join(al) + "\n", "bgzf", block=65280)
+            emit("stable_bgzf_seams", ["view", zg, "-g", gfa, "-f", "stable", "-o", os.path.join(d, "o7")], al, os.path.join(d, "o7"), mode="stable")
+        # one record longer than 64 KiB, selected by node from a plain file (a line has no maximal length)
+        f0_ = lines[0].split("\t")
+        longrec = "\t".join(["longline" + str(fid)] + f0_[1:] + ["zz:Z:" + "p" * 70000, "xb:B:i,1,2", "xa:A:k"])
+        lg = os.path.join(d, "long.gaf")
+        write_text(lg, longrec + "\n" + lines[0] + "\n")
+        run_cli(["index", lg, gfa])
+        emit("node_long_line", ["view", lg, "-n", "s1", "-o", os.path.join(d, "o8")], [longrec, lines[0]], os.path.join(d, "o8"), mode="node")
+        if fid in ("f0", "f1", "f2", "f3"):
+            # the real command line with a standard output that cannot encode every character (PYTHONIOENCODING=ascii, a C locale
+            # without UTF-8 mode, a cp1252 console): refusing loudly is fine, writing something else than the records is not
+            import subprocess
+            import sys
+            from engine import REPO
+
+            pr = subprocess.run([sys.executable, "-m", "gaftools", "view", gaf, "-n", "s1"], capture_output=True, timeout=120,
+                                env=dict(os.environ, PYTHONPATH=REPO, PYTHONIOENCODING="ascii", PYTHONUTF8="0"))
+            if pr.returncode == 0:
+                outl = lines_of(pr.stdout.decode("utf-8", "replace"))
+                cases.append({"id": f"{fid}.node_ascii_stdout", "path": "node", "status": "ok", "recs": pair_up(lines, outl)})
         # the same path, now holding the BGZF form of the same records (what `sort --bgzip -o` or a re-compression leaves):
         # the reader decides by content, in this process it has read the path as plain text a moment ago
         write_text(gaf, join_lines(lines, fid), "bgzf", block=250)
